@@ -2,7 +2,7 @@
 
 from contracts.cemi_common import APCI_STUBS
 from contracts.secure_common import SECURE_DATA_STUBS
-from pyvc.api import Bool, Bytes, Choice, Const, EnumOf, Int, MapOf, Obj, lemma
+from pyvc.api import Bool, Bytes, Choice, Const, EnumOf, Int, MapOf, Obj, ghost, lemma
 from xknx.cemi.cemi_frame import CEMILData
 from xknx.cemi.flags import CEMIFlags
 from xknx.exceptions import ConversionError, DataSecureError
@@ -65,10 +65,12 @@ def received_secure_frame_step(ds, frame, other):
         out = ds.received_cemi(frame)
         delivered = True
     except DataSecureError:
-        # rejected: nothing in the table moved
-        assert (src in table) == known_before and table.get(src, -1) == last_before
-    except ConversionError:
-        pass  # authenticated but undecodable content: not delivered (the receive path's concern is C18)
+        if len(ghost("mac_verified")) == 0:
+            # failed verification (or never got that far): nothing in the table moved
+            assert (src in table) == known_before and table.get(src, -1) == last_before
+        else:
+            # verified, but the decrypted content is not a usable APDU: not delivered; the number is used up
+            assert known_before and seq > last_before and table.get(src, -1) == seq
     if delivered:
         assert known_before and seq > last_before
         assert table.get(src, -1) == seq
